@@ -1518,12 +1518,13 @@ impl<D: TextDecorator> Renderer for SubRenderer<D> {
         other.flush_wrapping()?;
         let trailing_frags = std::mem::take(&mut other.pending_frags);
 
-        self.extend_lines(
-            other
-                .into_lines()?
-                .into_iter()
-                .zip(prefixes)
-                .map(|(line, prefix)| match line {
+        let width = self.width;
+        let allow_overflow = self.options.allow_width_overflow;
+        let lines: Vec<_> = other
+            .into_lines()?
+            .into_iter()
+            .zip(prefixes)
+            .map(|(line, prefix)| match line {
                     RenderLine::Text(mut tline) => {
                         if !prefix.is_empty() {
                             tline.insert_front(TaggedString {
@@ -1545,8 +1546,19 @@ impl<D: TextDecorator> Renderer for SubRenderer<D> {
                         }));
                         RenderLine::Text(tline)
                     }
-                }),
-        );
+                })
+            .collect();
+        // A block without any width (nothing in it needs room) still gets its
+        // prefix: that has to fit too.
+        if !allow_overflow
+            && lines.iter().any(|line| match line {
+                RenderLine::Text(tline) => tline.width() > width,
+                RenderLine::Line(_) => false,
+            })
+        {
+            return Err(TooNarrow);
+        }
+        self.extend_lines(lines);
         self.pending_frags.extend(trailing_frags);
 
         Ok(())
